@@ -75,7 +75,9 @@ func (constraint TypeConstraint) DeepCopy() TypeConstraint {
 		Args: make([]any, 0, len(constraint.Args)),
 	}
 
-	newConstraint.Args = append(newConstraint.Args, constraint.Args...)
+	for _, arg := range constraint.Args {
+		newConstraint.Args = append(newConstraint.Args, deepCopyValue(arg))
+	}
 
 	return newConstraint
 }
@@ -262,7 +264,7 @@ func (t Type) DeepCopy() Type {
 	newType := Type{
 		Kind:     t.Kind,
 		Nullable: t.Nullable,
-		Default:  t.Default,
+		Default:  deepCopyValue(t.Default),
 		Hints:    make(JenniesHints, len(t.Hints)),
 	}
 
@@ -308,7 +310,8 @@ func (t Type) DeepCopy() Type {
 	}
 
 	for k, v := range t.Hints {
-		newType.Hints[k] = v
+		// hints can hold IR nodes (the disjunction a struct was generated from)
+		newType.Hints[k] = deepCopyValue(v)
 	}
 
 	newType.PassesTrail = append(newType.PassesTrail, t.PassesTrail...)
@@ -814,7 +817,7 @@ func (t EnumValue) DeepCopy() EnumValue {
 	return EnumValue{
 		Type:  t.Type.DeepCopy(),
 		Name:  t.Name,
-		Value: t.Value,
+		Value: deepCopyValue(t.Value),
 	}
 }
 
@@ -959,7 +962,7 @@ func (t ConstantReferenceType) DeepCopy() ConstantReferenceType {
 	return ConstantReferenceType{
 		ReferredPkg:    t.ReferredPkg,
 		ReferredType:   t.ReferredType,
-		ReferenceValue: t.ReferenceValue,
+		ReferenceValue: deepCopyValue(t.ReferenceValue),
 	}
 }
 
@@ -1082,7 +1085,7 @@ func (scalarType *ScalarType) AcceptsValue(value any) bool {
 func (scalarType ScalarType) DeepCopy() ScalarType {
 	newT := ScalarType{
 		ScalarKind: scalarType.ScalarKind,
-		Value:      scalarType.Value,
+		Value:      deepCopyValue(scalarType.Value),
 	}
 
 	if len(scalarType.Constraints) != 0 {
